@@ -11,6 +11,12 @@ namespace {
     constexpr auto kChunkCapacity = ChunkCapacity::make(1024 * 16);
 }
 
+#ifdef MUSTACHE_VERIF
+// verification hook: lets a harness shrink the storage-chunk capacity so that chunk boundaries are
+// reachable with a handful of entities. 0 = keep the compile-time value.
+namespace mustache { namespace verif { uint32_t storage_chunk_capacity = 0u; } }
+#endif
+
 DefaultComponentDataStorage::DefaultComponentDataStorage(const ComponentIdMask& mask, MemoryManager& memory_manager):
     BaseComponentDataStorage{},
     memory_manager_{&memory_manager},
@@ -18,6 +24,11 @@ DefaultComponentDataStorage::DefaultComponentDataStorage(const ComponentIdMask& 
     chunk_capacity_{kChunkCapacity},
     chunks_{memory_manager} {
     MUSTACHE_PROFILER_BLOCK_LVL_0(__FUNCTION__);
+#ifdef MUSTACHE_VERIF
+    if (mustache::verif::storage_chunk_capacity != 0u) {
+        chunk_capacity_ = ChunkCapacity::make(mustache::verif::storage_chunk_capacity);
+    }
+#endif
     if (!mask.isEmpty()) {
         component_getter_info_.reserve(mask.componentsCount());
 
